@@ -1063,3 +1063,23 @@ class _ListInterp:
                     s.store[nm] = self.fresh(node, nm)
         elif isinstance(target, ast.Subscript):
             self.taint(s, target.value)
+
+
+
+def reserved_table_concat_hits(ctx):
+    """Lost-comma lint (rules/_strconcat_lint) on the constant string tables of check_vname's module: elements written as two
+    adjacent literals fold into one entry, so neither name is reserved any more.  -> [(function or None, node, folded value, tokens)]"""
+    from ._strconcat_lint import implicit_concats, is_string_table, self_check
+    self_check("reserved-name tables")
+    f = ctx.repo.get_func(OPERATOR_REL, "check_vname")
+    m = f.module
+    out = []
+    seen = set()
+    for scope, root in ((f, f.node), (None, m.tree)):
+        nodes = ast.walk(root) if scope is not None else [st.value for st in m.tree.body if isinstance(st, ast.Assign)]
+        for n in nodes:
+            if is_string_table(n) and id(n) not in seen:
+                seen.add(id(n))
+                for e, toks in implicit_concats(m.source, n):
+                    out.append((scope, e, e.value, toks))
+    return out
